@@ -98,6 +98,9 @@ namespace cgi {
 				return;
 			}
 
+			// the strings are measured with strlen, make sure that the last one ends
+			// inside of the buffer even if the peer did not terminate it
+			buffer_.back() = 0;
 			char const *p=&buffer_[sep_ + 1];
 			while(p < &buffer_.back()) {
 				char *key=pool_.add(p);
